@@ -2,7 +2,7 @@
 from common import TB_COMMON
 
 PROP = {
-    "lean_modules": ["CapyV.Props.C02"],
+    "lean_modules": ["CapyV.Props.C02", "CapyV.Props.C02Copy"],
     "level": "proof",
     "needs_cli": True,
     "trusted_base": TB_COMMON + [
@@ -10,13 +10,13 @@ PROP = {
         "the CLIF text parser of harness/src/c02.rs (stores relative to the first parameter; spills into the writer's own stack slots are not stores into the object)",
         "layouts are C17's (hook codegen::verif::layouts, model CapyV.Layout, proved in Props/C17)",
         "not modelled: stores of struct/array LITERAL construction (store_struct_fields / store_array_items), default initialisation (memset) and the ABI spill slots — these are exercised only behaviourally (guards printed by the built program; struct arguments/returns of sizes 1..64)",
-        "value semantics (aggregates are copied) is the reference interpreter's store model, decided per program under C01",
+        "value semantics (aggregates are copied): CapyV.Copy (Model/CopyLang.lean) says every syntactic form of an aggregate copy means `copy the cells`; theorems runFrom_frame / copy_independent / source_unaffected_by_copy_writes / set_cells in Props/C02Copy.lean; tied to the code behaviourally: generated copy programs (harness/src/c02_copy.rs) are built by the real CLI and their printed cells compared with the model and with an independent by-value evaluation",
     ],
     "assumptions": ["pointer width 64", "destination and source types as generated (sum types, odd-sized aggregates, scalars)"],
 }
 
 # (category, text, design_ref, technique)
 LEVEL = ("proof",
-         "Lean 4 theorems on the store-footprint model, for every type: same_within, variant_within, optional_payload_within, optional_nil_within, error_union_within (every store of `dst = value` lies inside [0, size dst)), shift_within (hence inside the assigned field), and old_enum_tag_overwide / old_aggregate_copy_overwide documenting the two defects of the pinned tree (8-byte tag store into a 5-byte enum; stride-sized aggregate copies), repaired by fix: 664a588. Every run compiles generated guard-separated struct layouts with the real CLI, reads each writer's stores from the printed Cranelift IR (compared with the model, must lie inside the field), runs the program (field holds the written value, every guard intact after every write) and passes structs of sizes 1..64 by value between guards. Partial: literal construction, memset and ABI spills are covered behaviourally only.",
+         "Lean 4 theorems on the store-footprint model, for every type: same_within, variant_within, optional_payload_within, optional_nil_within, error_union_within (every store of `dst = value` lies inside [0, size dst)), shift_within (hence inside the assigned field), and old_enum_tag_overwide / old_aggregate_copy_overwide documenting the two defects of the pinned tree (8-byte tag store into a 5-byte enum; stride-sized aggregate copies), repaired by fix: 664a588. Every run compiles generated guard-separated struct layouts with the real CLI, reads each writer's stores from the printed Cranelift IR (compared with the model, must lie inside the field), runs the program (field holds the written value, every guard intact after every write) and passes structs of sizes 1..64 by value between guards. Second half of the statement (copies are independent): theorems runFrom_frame, copy_independent, source_unaffected_by_copy_writes, form_irrelevant, set_cells on the CopyLang model; every run builds generated copy programs (9 syntactic copy forms x sources that are variables, fields, elements; writes direct, through pointers, in callees; aggregate assignments) and compares every printed cell with the model. Partial: literal construction, memset and ABI spills are covered behaviourally only.",
          "§4 C02",
          "Lean 4 proof on store footprints + IR-level and behavioural translation validation on generated layouts")
